@@ -53,6 +53,16 @@ CompileDiff(P0, P1, domain, mapped, table, reqs) ==
   IF [k \in 1..Len(P0.mods) |-> P0.mods[k].name] # [k \in 1..Len(P1.mods) |-> P1.mods[k].name] THEN "hierarchy_changed"
   ELSE FirstNonEmpty([k \in 1..Len(P0.mods) |-> ModContract(P0.mods[k], P1.mods[k], domain, mapped, table, reqs)])
 
+(* sizing: each sizing role (w, l, mult, nf) the device has carries the given value, or else the PDK's default ("" = the PDK states none) *)
+Want(z, r) == IF z.given[r] # "" THEN z.given[r] ELSE z.dflt[r]
+SizeFault(key, z) ==
+  LET R == {r \in {"w", "l", "mult", "nf"} : \E k \in DOMAIN z.roles : z.roles[k] = r}
+      B == {r \in R : Want(z, r) # "" /\ z.got[r] # Want(z, r)} IN
+  IF B = {} THEN "" ELSE LET r == CHOOSE x \in B : TRUE IN
+       (IF z.given[r] # "" THEN "given_size_not_used:" ELSE "default_size_not_used:") \o key \o "." \o r
+SizeFaults(sizes) == LET B == {k \in DOMAIN sizes : SizeFault(k, sizes[k]) # ""} IN
+  IF B = {} THEN "" ELSE SizeFault(CHOOSE k \in B : TRUE, sizes[CHOOSE k \in B : TRUE])
+
 (* must the compilation be refused?  yes iff some request has no satisfying device *)
 MustRaise(table, reqs) == \E k \in DOMAIN reqs : Satisfying(table, reqs[k]) = {}
 (* a request that several devices satisfy equally may be refused as not well defined, or answered with any of them *)
